@@ -96,11 +96,15 @@ def _nested(m, other, x):
     if hasattr(m_, 'p'):
       m_.p.value = m_.p.value + 2 * x_ + 1
     m_.child.b.value = m_.child.b.value + 1
-    if t in ('jit', 'remat', None) and NESTED.get('structural'):
+    if NESTED.get('structural'):
       m_.nested_new = nnx.Param(x_ + 2)
     return m_.child.b.value
   if t is None:
-    return g(m, other, x)
+    # eager reference: the same Python control flow, without the transform
+    kind = NESTED.get('kind')
+    if kind == 'cond':
+      return g(m, other, x) if x >= 0 else m.child.b.value * 0 + 5
+    return g(m, other, x)           # jit, remat, switch(1), one-trip loops
   if t == 'jit':
     return nnx.jit(g)(m, other, x)
   if t == 'remat':
@@ -214,6 +218,7 @@ def jit_remat_like_eager(t, ne, s0, d0, h0, second, v0, v1, v2, x, n, o0, o1, ca
   with TEnv():
     tf = nnx.jit(f) if t == 0 else nnx.remat(f)
     NESTED['structural'] = True
+    NESTED['kind'] = 'jit' if t == 0 else 'remat'
     for i in range(calls):
       NESTED['t'] = 'jit' if t == 0 else 'remat'
       try:
@@ -252,11 +257,17 @@ def control_flow_like_python(t, second, v0, v1, v2, x, o0, o1, sel, trips):
     # fails jax's own output-structure check; that check is jax's, not flax's, and
     # does not exist under the Python-control-flow stub
     raise Reject()
+  if structural and (v0 != 0 or v1 != 0 or v2 != 0 or x != 0):
+    # a structural edit inside a loop body must be rejected whatever the values are;
+    # flax's error message renders the whole graph, which would make CrossHair
+    # enumerate every value: one value assignment is enough for this case
+    raise Reject()
   oa, ma, othera = _build(None, second, v0, v1, v2)
   ob, mb, otherb = _build(None, second, v0, v1, v2)
   fa = user_fn(ops[:1])
   fb_ = user_fn(ops[1:])
   NESTED['structural'] = False
+  NESTED['kind'] = ('cond', 'switch', 'fori', 'while')[t]
   with TEnv():
     NESTED['t'] = ('cond', 'switch', 'fori', 'while')[t]
     try:
@@ -306,6 +317,29 @@ def control_flow_like_python(t, second, v0, v1, v2, x, o0, o1, sel, trips):
   return ya == yb and _canon_pair(ma, othera) == _canon_pair(mb, otherb)
 
 
+OLD_OPS = [0, 1, 2, 7]
+
+
+def _pair(pos, onew, oold):
+  new, old = 8 + onew, pick(OLD_OPS, oold)
+  return (new, old) if pos == 0 else (old, new)
+
+
+def jit_remat_new_ops(t, second, v0, v1, v2, x, pos, onew, oold, calls, bare=0):
+  """the two later ops (8: record-like pytree attribute whose fields are treated
+  differently, 9: the same transform nested in itself) before / after an op of the
+  original set, under nnx.jit / nnx.remat"""
+  o0, o1 = _pair(pos, onew, oold)
+  return jit_remat_like_eager(t, 0, 0, 0, False, second, v0, v1, v2, x, 2, o0, o1,
+                              calls, bare)
+
+
+def control_flow_new_ops(t, second, v0, v1, v2, x, pos, onew, oold, sel, trips):
+  """ops 8 / 9 under nnx.cond / switch / fori_loop / while_loop"""
+  o0, o1 = _pair(pos, onew, oold)
+  return control_flow_like_python(t, second, v0, v1, v2, x, o0, o1, sel, trips)
+
+
 def aliased_inputs_are_one_object(v0, v2, x, t):
   """the same object passed as two arguments is one object inside"""
   def f(a, b, xx):
@@ -345,7 +379,7 @@ def obligations(tier):
                 G.SplitContext.split if hasattr(G.SplitContext, 'split') else
                 G.split, G.flatten, G.unflatten)
   v = I(-2, 2)
-  op = I(0, NOPS - 1)
+  op = I(0, 7)        # ops 8 and 9 have their own (smaller) obligations
   return [
       Ob('jit_remat_like_eager', jit_remat_like_eager,
          dict(t=I(0, 1), ne=I(0, 1), s0=I(0, 2), d0=I(0, 6), h0=B(),
@@ -354,8 +388,7 @@ def obligations(tier):
          split=('t', 'ne', 'n', 'o0', 'second'), timeout=900, funcs=F,
          per_path_timeout=60.0,
          bounds='jit, remat; base graph + <=1 extra edge; second argument = the '
-                'child (aliases) or a separate module; <=2 ops of 10 kinds (incl. the same '
-                'transform nested in itself, a record-like pytree attribute); %s '
+                'child (aliases) or a separate module; <=2 ops of 8 kinds; %s '
                 'calls' % ('1' if quick else '<=2')),
       Ob('control_flow_like_python', control_flow_like_python,
          dict(t=I(0, 3), second=I(0, 1), v0=v, v1=v, v2=v, x=v, o0=op, o1=op,
@@ -363,6 +396,21 @@ def obligations(tier):
          split=('t', 'o0', 'o1', 'second'), timeout=900, funcs=F,
          per_path_timeout=60.0,
          bounds='cond/switch over 2 branches (+noop), fori/while trip counts 0..2'),
+      Ob('jit_remat_new_ops', jit_remat_new_ops,
+         dict(t=I(0, 1), second=I(0, 1), v0=v, v1=v, v2=v, x=v, pos=I(0, 1),
+              onew=I(0, 1), oold=I(0, len(OLD_OPS) - 1),
+              calls=I(1, 1 if quick else 2), bare=I(0, 2)),
+         split=('t', 'pos', 'onew', 'oold', 'second'), timeout=900, funcs=F,
+         per_path_timeout=60.0,
+         bounds='op 8 (record-like NamedTuple attribute, fields treated differently) '
+                'and op 9 (the same transform nested in itself, with a structural '
+                'edit) before / after an op of %r' % (OLD_OPS,)),
+      Ob('control_flow_new_ops', control_flow_new_ops,
+         dict(t=I(0, 3), second=I(0, 1), v0=v, v1=v, v2=v, x=v, pos=I(0, 1),
+              onew=I(0, 1), oold=I(0, len(OLD_OPS) - 1), sel=I(0, 2), trips=I(0, 2)),
+         split=('t', 'pos', 'onew', 'oold', 'second'), timeout=900, funcs=F,
+         per_path_timeout=60.0,
+         bounds='ops 8 / 9 under cond / switch / fori_loop / while_loop'),
       Ob('aliased_inputs_one_object', aliased_inputs_are_one_object,
          dict(v0=v, v2=v, x=v, t=I(0, 1)), timeout=300, funcs=F),
   ]
